@@ -436,7 +436,7 @@ func runC01(c *core.Ctx) {
 	// ---- interface{} family: Maybe.Just(v) and JustGenerics[interface{}](v)
 	corpus := []any{
 		nil, true, false, 0, 1, -5, int8(-3), int16(300), int32(-70000), int64(1 << 40), uint(3), uint8(200), uint16(65535), uint32(1 << 31), uint64(1 << 63), uintptr(9),
-		float32(1.5), 2.25, math.Inf(1), complex64(1 + 2i), complex128(3 - 1i), "", "abc", "12", [2]int{1, 2}, [0]int{}, c01S{}, c01S{2, "y", nil}, struct{}{},
+		float32(1.5), 2.25, math.Inf(1), complex64(1 + 2i), complex128(3 - 1i), "", "abc", "12", "<nil>", "nil", "null", "None", " <nil>", "%!s(<nil>)", "0x0", "false", [2]int{1, 2}, [0]int{}, c01S{}, c01S{2, "y", nil}, struct{}{},
 		nilSlice, []int{}, []int{1, 2}, []any{nil, 1}, nilMap, map[string]int{}, map[string]int{"a": 1}, nilFn, fn, nilCh, ch,
 		p1, &p1, nilInt, pnil, nilS, s1, &s1, (*[]int)(nil), &nilSlice, (*any)(nil), up, unsafe.Pointer(nil), nilErr, fmt.Errorf("e"),
 		fpgo.None, fpgo.Maybe.Just(1), fpgo.Maybe.Just(nil), fpgo.Maybe.Just(fpgo.Maybe.Just("x")), fpgo.JustGenerics(5), fpgo.JustGenerics[*int](nil),
@@ -497,7 +497,7 @@ func runC01(c *core.Ctx) {
 	c01Typed(e, "uint64", []uint64{0, 1 << 63}, 4)
 	c01Typed(e, "float64", []float64{0, 2.5, math.Inf(-1)}, 4)
 	c01Typed(e, "bool", []bool{false, true}, true)
-	c01Typed(e, "string", []string{"", "abc", "7"}, "fb")
+	c01Typed(e, "string", []string{"", "abc", "7", "<nil>", "nil", "null"}, "fb")
 	c01Typed(e, "complex128", []complex128{0, 1i}, 2)
 	c01Typed(e, "[2]int", [][2]int{{}, {1, 2}}, [2]int{9, 9})
 	c01Typed(e, "struct", []c01S{{}, {1, "a", []int{1}}}, c01S{A: 99})
